@@ -37,6 +37,8 @@ CONSTANTS NQ, NR,            \* number of request / response segments (1 = unseg
           RecvMult, SeqMod,
           MaxDrop, MaxDup, MaxDelay, DelayBy,
           ResendSeg0OnNoWin, IndexFromSeq, IgnoreStaleAck,
+          IdleAcceptsAnySeq,   \* TRUE: a segmented request whose first received segment is not number 0 starts a
+                               \* transaction all the same -- the pinned tree (finding F25); FALSE: it is answered with an abort
           FinalAckAnyInWindow, \* TRUE: once all segments were sent ANY in-window segment ack (even a negative one
                                \* for an earlier segment) is taken for the final ack -- the pinned tree (finding F24)
           MaxNow             \* state constraint for configurations with unbounded deviations
@@ -208,6 +210,8 @@ S_idle(f) ==
    /\ IF ~f.seg
         THEN /\ s' = [SInit EXCEPT !.st = "AWAIT_RESP", !.ddl = now + Tapp, !.rx = <<f.tok>>]
              /\ sInd' = Append(sInd, <<f.tok>>) /\ sApp' = Append(sApp, now + AppDelay) /\ tx' = <<>>
+        ELSE IF f.seq # 0 /\ ~IdleAcceptsAnySeq
+          THEN /\ s' = STerminal("GONE") /\ tx' = <<Abt("sc", TRUE)>> /\ UNCHANGED <<sInd, sApp>>
         ELSE /\ s' = [SInit EXCEPT !.st = "SEG_REQ", !.rx = <<f.tok>>, !.win = Min(f.win, PWS),
                                    !.ddl = now + Tseg * RecvMult]
              /\ tx' = <<Ack("sc", FALSE, 0, Min(f.win, PWS))>> /\ UNCHANGED <<sInd, sApp>>
@@ -239,7 +243,10 @@ S_await_response(f) ==
 AppRespond ==
    /\ sApp # <<>> /\ Head(sApp) <= now
    /\ sApp' = Tail(sApp)
-   /\ IF s.st # "AWAIT_RESP" THEN tx' = <<>> /\ UNCHANGED s
+   \* (ServerSSM.confirmation only warns when the state is not AWAIT_RESPONSE and carries on: a response that
+   \* the application produced for an earlier copy of the request is sent from whatever state the live
+   \* transaction with that invoke ID is in)
+   /\ IF s.st \in {"NOTXN", "GONE"} THEN tx' = <<>> /\ UNCHANGED s
       ELSE IF RK = "abort" THEN s' = STerminal("GONE") /\ tx' = <<Abt("sc", TRUE)>>
       ELSE IF RK = "error" THEN s' = STerminal("GONE") /\ tx' = <<Simple("ERR")>>
       ELSE IF NR = 0 THEN s' = STerminal("GONE") /\ tx' = <<Simple("SA")>>
@@ -379,6 +386,8 @@ SeqMatchesIndex == \A i \in 1..Len(wire) : IsData(wire[i]) /\ wire[i].seg => wir
 WindowBound == LET d == SelectSeq(tx, IsData) IN Len(d) > 1 => Len(d) <= d[1].win
 WindowRange == \A i \in 1..Len(wire) : (wire[i].k = "ACK" \/ (IsData(wire[i]) /\ wire[i].seg)) =>
                   wire[i].win \in 1..127
+\* deliberately false: used to show that the local no-response abort is reachable (vacuity check)
+SanityNoLocalAbort == \A i \in 1..Len(cOut) : cOut[i].k # "abort_noresp"
 Want == IF RK = "abort" THEN "abort_peer" ELSE RK
 \* (a lost frame can only be repaired by a retransmission, so at least one retry must be configured)
 SingleFaultRepaired == (Quiescent /\ Faults <= 1 /\ AppDelay < Tapp /\ (Faults = 0 \/ Retries >= 1)) => (Len(cOut) = 1 /\ cOut[1].k = Want)
